@@ -177,6 +177,8 @@ class Ctx:
         self.base_axioms = list(PI_AXIOMS)
         self.label = ""
         self._solver = z3.Solver()
+        self._scopes = []
+        self._scope_facts = []
 
     def start_path(self, prefix):
         self.prefix = list(prefix)
@@ -188,6 +190,9 @@ class Ctx:
         self._solver.set("timeout", 1500)
         for a in self.base_axioms:
             self._solver.add(a)
+        self._scopes = []
+        self._scope_facts = []
+        self.derive_nonneg = False
 
     # -- feasibility (one incremental solver per path)
     def _sat(self, extra):
@@ -209,8 +214,32 @@ class Ctx:
         return self._sat(z3.Not(cond)) == z3.unsat
 
     def _push_pc(self, f):
+        if self._scopes:
+            # a fact established while a Sigma bound variable is in scope holds under the
+            # range hypothesis of that variable only
+            f = z3.Implies(z3.And(*[c for c, _ in self._scopes]), f)
+            self._scope_facts.append(f)
+            self._solver.add(f)
+            return
         self.pc.append(f)
         self._solver.add(f)
+
+    def enter_scope(self, var, cond):
+        self._solver.push()
+        self._solver.add(cond)
+        self._scopes.append((cond, var.get_id()))
+
+    def exit_scope(self):
+        self._scopes.pop()
+        self._solver.pop()
+        if not self._scopes:
+            facts, self._scope_facts = self._scope_facts, []
+            for f in facts:
+                self.pc.append(f)
+                self._solver.add(f)
+        else:
+            for f in self._scope_facts:
+                self._solver.add(f)
 
     def decide(self, cond):
         """Branch on a symbolic condition (called from Sym.__bool__)."""
@@ -221,6 +250,8 @@ class Ctx:
             return True
         if z3.is_false(cond):
             return False
+        if self._scopes and _contains(cond, {vid for _, vid in self._scopes}, {}):
+            raise Outside("branch on a Sigma bound variable")
         k = len(self.trace)
         if k < len(self.prefix):
             val = self.prefix[k]
@@ -642,7 +673,24 @@ def power(a, b):
     return Sym(f_pow(a.real(), b.real()), nan)
 
 
+def _inf_sign(x):
+    if isinstance(x, float) and math.isinf(x):
+        return 1 if x > 0 else -1
+    return 0
+
+
 def compare(op, a, b):
+    sa, sb = _inf_sign(a), _inf_sign(b)
+    if sa or sb:
+        # comparison against +-inf: decided by the sign (NaN operands aside)
+        if sa and sb:
+            return Sym({"<": sa < sb, "<=": sa <= sb, ">": sa > sb, ">=": sa >= sb, "==": sa == sb, "!=": sa != sb}[op])
+        other = as_sym(b if sa else a)
+        s = sa if sa else -sb  # sign of (a - b)
+        val = {"<": s < 0, "<=": s < 0, ">": s > 0, ">=": s > 0, "==": False, "!=": True}[op]
+        if other.nan is not False and op != "!=":
+            return Sym(z3.And(z3.Not(to_z3_bool(other.nan)), z3.BoolVal(val)))
+        return Sym(val)
     try:
         a = as_sym(a)
         b = as_sym(b)
@@ -942,7 +990,40 @@ def make_sum(var, lo, hi, body):
         total = term if total is None else total + term
     if total is None:
         total = z3.RealVal(0)
+    _maybe_nonneg(var, lo, hi, body, total)
     return total
+
+
+_NONNEG_CACHE = {}
+
+
+def _maybe_nonneg(var, lo, hi, body, total):
+    """WS.sum_nonneg at creation time: if the (un-split) body is provably >= 0 on the range
+    under the current path condition, record  Sigma >= 0  as a derived fact."""
+    if not getattr(CTX, "derive_nonneg", False) or z3.is_rational_value(total):
+        return
+    key = (body.sexpr(), lo.sexpr(), hi.sexpr(), len(CTX.pc), len(CTX._scope_facts), len(CTX._scopes))
+    if key in _NONNEG_CACHE:
+        ok = _NONNEG_CACHE[key]
+    else:
+        s = CTX._solver
+        s.push()
+        s.add(var >= lo, var < hi, body < 0)
+        for a in fn_axioms([body]):
+            s.add(a)
+        old = None
+        try:
+            s.set("timeout", 400)
+            ok = s.check() == z3.unsat
+        finally:
+            s.set("timeout", 1500)
+            s.pop()
+        _NONNEG_CACHE[key] = ok
+        if len(_NONNEG_CACHE) > 5000:
+            _NONNEG_CACHE.clear()
+    if ok:
+        CTX.events.append(("lean_lemma", "sum_nonneg"))
+        CTX._push_pc(total >= 0)
 
 
 def _sum_mono(var, lo, hi, m):
@@ -1032,7 +1113,11 @@ def sym_sum(lo, hi, body_fn, skipna=False):
     v = z3.Int(fresh_name("k"))
     lo_t = as_sym(lo).t
     hi_t = as_sym(hi).t
-    b = as_sym(body_fn(Sym(v)))
+    CTX.enter_scope(v, z3.And(v >= lo_t, v < hi_t))
+    try:
+        b = as_sym(body_fn(Sym(v)))
+    finally:
+        CTX.exit_scope()
     body = b.real()
     nan = False
     if b.nan is not False:
@@ -1079,6 +1164,42 @@ def collect_apps(t, pred, acc, seen):
         collect_apps(c, pred, acc, seen)
 
 
+def uf_mentions(term, func, _depth=0):
+    """argument tuples of every application of `func` inside term, looking through Sigma
+    atoms (kernels instantiated with fresh bound variables)"""
+    out = []
+    seen = set()
+
+    def rec(t):
+        k = t.get_id()
+        if k in seen:
+            return
+        seen.add(k)
+        if z3.is_app(t):
+            d = t.decl()
+            if d.kind() == z3.Z3_OP_UNINTERPRETED:
+                if d.eq(func):
+                    out.append(tuple(t.children()))
+                elif d.name() in SUMDEFS_BY_NAME and _depth < 6:
+                    sd = SUMDEFS_BY_NAME[d.name()]
+                    fresh = [z3.Int(fresh_name("fp")) for _ in sd.bvars]
+                    kern, rng = _instantiate(t, fresh)
+                    out.extend(uf_mentions(kern, func, _depth + 1))
+                elif d.name().startswith("ANY"):
+                    for key, (fn, cv, la, ha, pa, params) in EXDEFS.items():
+                        if fn.eq(d):
+                            sub = list(zip(params, t.children()))
+                            out.extend(uf_mentions(z3.substitute(pa, *sub) if sub else pa, func, _depth + 1))
+        if z3.is_quantifier(t):
+            rec(t.body())
+            return
+        for c in t.children():
+            rec(c)
+
+    rec(term)
+    return out
+
+
 def fn_axioms(terms):
     """ground axioms for the uninterpreted math functions occurring in terms"""
     acc = []
@@ -1116,7 +1237,10 @@ def fn_axioms(terms):
     return ax
 
 
-def sum_axioms(terms, hyps, budget_ms=2000, want_nonneg=True):
+_SA_CACHE = {}
+
+
+def sum_axioms(terms, hyps, budget_ms=300, want_nonneg=True):
     """lemma instances for Sigma atoms occurring in terms:
     Finset.sum_nonneg: kernel >= 0 on the range  =>  SUM >= 0 (checked by z3 per atom)."""
     acc = []
@@ -1133,7 +1257,13 @@ def sum_axioms(terms, hyps, budget_ms=2000, want_nonneg=True):
     used = []
     if not want_nonneg:
         return ax, used
-    for a in acc:
+    for a in acc[:30]:
+        ck = (a.sexpr(), len(hyps))
+        if ck in _SA_CACHE:
+            if _SA_CACHE[ck]:
+                ax.append(a >= 0)
+                used.append("sum_nonneg")
+            continue
         sd = SUMDEFS_BY_NAME[a.decl().name()]
         sub = list(zip(sd.params, a.children()))
         kern = z3.substitute(sd.kernel, *sub) if sub else sd.kernel
@@ -1155,7 +1285,9 @@ def sum_axioms(terms, hyps, budget_ms=2000, want_nonneg=True):
             s.add(h)
         s.add(*rng)
         s.add(kern < 0)
-        if s.check() == z3.unsat:
+        ok = s.check() == z3.unsat
+        _SA_CACHE[ck] = ok
+        if ok:
             ax.append(a >= 0)
             used.append("sum_nonneg")
     return ax, used
@@ -1173,7 +1305,7 @@ def _instantiate(app, fresh):
     return kern, rng
 
 
-def sum_match_axioms(terms, hyps, budget_ms=700):
+def sum_match_axioms(terms, hyps, budget_ms=400):
     """WS.sum_congr / WS.sum_comm instances: two Sigma atoms whose ranges coincide and whose
     kernels are pointwise equal on the range (possibly after permuting the bound
     variables) are equal."""
@@ -1189,8 +1321,9 @@ def sum_match_axioms(terms, hyps, budget_ms=700):
     ax = []
     used = []
     n = len(acc)
-    if n > 40:
-        return ax, used
+    if n > 24:
+        acc = acc[-24:]
+        n = 24
     parent = list(range(n))
 
     def find(i):
@@ -1250,7 +1383,7 @@ def prove(hyps, goal, timeout_ms=20000, extra_axioms=(), nonneg=True, use_cvc5=N
     lem_used = []
     sax = []
     if nonneg:
-        sax, lem_used = sum_axioms(base + [goal], base)
+        sax, lem_used = sum_axioms([goal], base)
     allf = base + sax
     fax = fn_axioms(allf + [goal])
     # stage 1: plain, short
@@ -1259,7 +1392,8 @@ def prove(hyps, goal, timeout_ms=20000, extra_axioms=(), nonneg=True, use_cvc5=N
         return "proved", "z3", time.time() - t0, None, lem_used
     model = s.model() if r == z3.sat else None
     # stage 2: Sigma congruence / Fubini instances
-    max_, mused = sum_match_axioms(base + [goal], base)
+    qc = {}
+    max_, mused = sum_match_axioms([h for h in hyps if not _has_quant(h, qc)][-40:] + [goal], base)
     if max_:
         lem_used = sorted(set(lem_used + mused))
         allf = allf + max_
